@@ -4,5 +4,7 @@ CONSTANTS
   Fns = {"Println", "Printf", "Errorf"}
   Shs = {"-", "echo", "printf", "errorf", "println", "fmt"}
   ScopeAware = TRUE
+  LambdaParamsScoped = FALSE
+  BareReturnLambda2 = FALSE
 INVARIANTS TypeOK Confluent ImportSound Export
 PROPERTIES Stable Terminates
